@@ -1,11 +1,349 @@
-//! (not built yet)
-use serde_json::Value;
-use vcore::Run;
+//! C04 — session termination is reported with the peer's exact code and reason.
 
-pub fn run(run: &Run) {
-    run.inconclusive("check not built yet");
+use crate::common::*;
+use proptest::prelude::*;
+use serde::{Deserialize, Serialize};
+use serde_json::Value;
+use std::sync::{Arc, Mutex};
+use std::time::Duration;
+use vcore::{prop_search, Outcome, Run, Search};
+use wire::*;
+use wtransport::Connection;
+
+const RULE: &str = "case = runtime flavour x role of the wtransport endpoint x termination style in {close capsule(code: u32 boundaries + random, reason: UTF-8 of 0..1024 bytes incl. multi-byte scalars at the 1024 boundary), clean FIN of the session stream, QUIC application close(code: 62-bit boundaries + random, reason bytes 0..1000 incl. non-UTF-8), abrupt: RESET of the session stream, FIN inside a DATA frame, malformed capsule: value shorter than 4 / longer than 1028 bytes / invalid UTF-8} x session phase in {idle, k open streams, pending accept_uni + accept_bi + receive_datagram in separate tasks}; wtransport<->wtransport with Connection::close on the other side. The capsule is written in one piece. Oracle: all pending and three subsequent peer-waiting calls return ApplicationClosed with exactly the peer's code and reason ((0, empty) for the clean FIN); abrupt / malformed styles give an error that is not ApplicationClosed and the raw peer sees a CONNECTION_CLOSE with an HTTP/3 error code. Non-trivial: non-zero code or non-empty reason or >= 1 pending call; distinct = distinct case";
+
+#[derive(Clone, Debug, Serialize, Deserialize, PartialEq)]
+pub enum Style {
+    Capsule(u32, String),
+    Fin,
+    QuicClose(u64, Vec<u8>),
+    /// wt<->wt: the other wtransport endpoint calls Connection::close
+    WtClose(u64, Vec<u8>),
+    Reset(u64),
+    FinInsideData,
+    /// 0 value shorter than 4 bytes, 1 longer than 1028, 2 invalid UTF-8 reason
+    Malformed(u8),
 }
 
-pub fn replay(_run: &Run, _doc: &Value) -> bool {
-    false
+#[derive(Clone, Debug, Serialize, Deserialize)]
+pub struct Case {
+    pub flavor: u8,
+    pub wt_is_server: bool,
+    pub style: Style,
+    /// 0 idle (calls issued after the close), 1 open streams + pending calls, 2 pending calls only
+    pub phase: u8,
+    pub open_streams: u8,
+}
+
+fn reason_strategy() -> impl Strategy<Value = String> {
+    prop_oneof![
+        2 => Just(String::new()),
+        3 => "[ -~]{1,40}",
+        2 => "\\PC{1,60}",
+        1 => "[a-z]{1020,1024}",
+        1 => "é{511,512}",                 // 2-byte scalars up to exactly 1024 bytes
+        1 => "€{340,341}x?",               // 3-byte scalars around the boundary
+    ]
+    .prop_map(|s| {
+        // keep within the 1024-byte limit of the capsule without cutting a scalar
+        let mut s = s;
+        while s.len() > 1024 {
+            s.pop();
+        }
+        s
+    })
+}
+
+pub fn case_strategy() -> impl Strategy<Value = Case> {
+    let code32 = prop_oneof![Just(0u32), Just(1), Just(255), Just(256), Just(u32::MAX), Just(1 << 31), any::<u32>()];
+    let code62 = prop_oneof![Just(0u64), Just(63), Just(64), Just(16383), Just(16384), Just((1 << 30) - 1), Just(1 << 30), Just((1u64 << 62) - 1), 0u64..(1 << 62)];
+    let style = prop_oneof![
+        5 => (code32, reason_strategy()).prop_map(|(c, r)| Style::Capsule(c, r)),
+        2 => Just(Style::Fin),
+        4 => (code62.clone(), prop_oneof![proptest::collection::vec(any::<u8>(), 0..60), proptest::collection::vec(any::<u8>(), 900..1000)]).prop_map(|(c, r)| Style::QuicClose(c, r)),
+        2 => (code62.clone(), proptest::collection::vec(any::<u8>(), 0..60)).prop_map(|(c, r)| Style::WtClose(c, r)),
+        2 => code62.prop_map(Style::Reset),
+        1 => Just(Style::FinInsideData),
+        3 => (0u8..3).prop_map(Style::Malformed),
+    ];
+    (0u8..3, any::<bool>(), style, 0u8..3, 0u8..4).prop_map(|(flavor, wt_is_server, style, phase, open_streams)| Case { flavor, wt_is_server, style, phase, open_streams })
+}
+
+#[derive(Default)]
+struct Shared {
+    results: Vec<(String, String)>,
+}
+
+async fn exec_async(case: Arc<Case>) -> CaseResult {
+    let shared = Arc::new(Mutex::new(Shared::default()));
+    let wt_wt = matches!(case.style, Style::WtClose(..));
+    let mut keep: Vec<Box<dyn std::any::Any + Send>> = Vec::new();
+    let conn: Connection;
+    let mut raw: Option<(quinn::Connection, quinn::SendStream, u64)> = None;
+    let mut other: Option<Connection> = None;
+    if wt_wt {
+        match wt_pair(&Tuning::default(), &Tuning::default()).await {
+            Ok(p) => {
+                let (a, b) = if case.wt_is_server { (p.server.clone(), p.client.clone()) } else { (p.client.clone(), p.server.clone()) };
+                conn = a;
+                other = Some(b);
+                keep.push(Box::new(p));
+            }
+            Err(e) => return CaseResult::Skip(e),
+        }
+    } else if case.wt_is_server {
+        match raw_client_vs_wt_server(&Tuning::default(), &Tuning::default()).await {
+            Ok(p) => {
+                let RawClientVsWt { server_ep, server, raw: r } = p;
+                let RawClientSession { endpoint, conn: rc, control, req_send, req_recv, session_id, .. } = r;
+                conn = server;
+                raw = Some((rc, req_send, session_id));
+                keep.push(Box::new((server_ep, endpoint, control, req_recv)));
+            }
+            Err(e) => return CaseResult::Skip(e),
+        }
+    } else {
+        match wt_client_vs_raw_server(&Tuning::default(), &Tuning::default()).await {
+            Ok(p) => {
+                let WtClientVsRaw { client_ep, client, raw_ep, raw: r } = p;
+                let RawServerSession { conn: rc, control, req_send, req_recv, session_id, .. } = r;
+                conn = client;
+                raw = Some((rc, req_send, session_id));
+                keep.push(Box::new((client_ep, raw_ep, control, req_recv)));
+            }
+            Err(e) => return CaseResult::Skip(e),
+        }
+    }
+    // phase: open streams in both directions that stay open
+    if case.phase == 1 {
+        for k in 0..case.open_streams {
+            if let Some((rc, _, sid)) = &raw {
+                if let Ok(mut s) = raw_open_wt_uni(rc, *sid).await {
+                    let _ = s.write_all(b"open").await;
+                    keep.push(Box::new(s));
+                }
+            }
+            if k % 2 == 0 {
+                if let Ok(o) = conn.open_uni().await {
+                    if let Ok(mut s) = o.await {
+                        let _ = s.write_all(b"mine").await;
+                        keep.push(Box::new(s));
+                    }
+                }
+            }
+        }
+        // the application accepts the peer's streams and holds them
+        for _ in 0..case.open_streams {
+            if raw.is_some() {
+                if let Ok(Ok(r)) = tokio::time::timeout(Duration::from_secs(2), conn.accept_uni()).await {
+                    keep.push(Box::new(r));
+                }
+            }
+        }
+    }
+    // pending calls
+    let mut tasks = Vec::new();
+    if case.phase >= 1 {
+        macro_rules! pend {
+            ($name:expr, $call:ident) => {{
+                let c = conn.clone();
+                let sh = shared.clone();
+                tasks.push(tokio::spawn(async move {
+                    let r = match c.$call().await {
+                        Ok(_) => "Ok".to_string(),
+                        Err(e) => conn_err(&e),
+                    };
+                    sh.lock().unwrap().results.push(($name.to_string(), r));
+                }));
+            }};
+        }
+        pend!("pending accept_uni", accept_uni);
+        pend!("pending accept_bi", accept_bi);
+        pend!("pending receive_datagram", receive_datagram);
+        tokio::time::sleep(Duration::from_millis(3)).await;
+    }
+    // the peer ends the session
+    let expect: Option<String> = match &case.style {
+        Style::Capsule(c, r) => Some(format!("ApplicationClosed({},{})", c, vcore::hex(r.as_bytes()))),
+        Style::Fin => Some("ApplicationClosed(0,)".into()),
+        Style::QuicClose(c, r) | Style::WtClose(c, r) => Some(format!("ApplicationClosed({},{})", c, vcore::hex(r))),
+        _ => None,
+    };
+    {
+        match &case.style {
+            Style::WtClose(c, r) => other.as_ref().unwrap().close(wtransport::VarInt::try_from_u64(*c).unwrap(), r),
+            style => {
+                let (rc, req_send, _) = raw.as_mut().unwrap();
+                match style {
+                    Style::Capsule(c, r) => {
+                        let bytes = refcodec::enc_frame(refcodec::registry::FRAME_DATA, &refcodec::enc_close_capsule(*c, r.as_bytes()));
+                        if req_send.write_all(&bytes).await.is_err() {
+                            return CaseResult::Skip("capsule write failed".into());
+                        }
+                        let _ = req_send.finish();
+                    }
+                    Style::Fin => {
+                        let _ = req_send.finish();
+                    }
+                    Style::QuicClose(c, r) => rc.close(vi(*c), r),
+                    Style::Reset(c) => {
+                        let _ = req_send.reset(vi(*c));
+                    }
+                    Style::FinInsideData => {
+                        let mut b = refcodec::enc_frame_header(refcodec::registry::FRAME_DATA, 30);
+                        b.extend_from_slice(&[1, 2, 3]);
+                        let _ = req_send.write_all(&b).await;
+                        let _ = req_send.finish();
+                    }
+                    Style::Malformed(k) => {
+                        let value: Vec<u8> = match k % 3 {
+                            0 => vec![0, 0, 1],
+                            1 => {
+                                let mut v = 7u32.to_be_bytes().to_vec();
+                                v.extend(std::iter::repeat(b'a').take(1025));
+                                v
+                            }
+                            _ => {
+                                let mut v = 7u32.to_be_bytes().to_vec();
+                                v.extend_from_slice(&[b'o', b'k', 0xff, 0xfe]);
+                                v
+                            }
+                        };
+                        let bytes = refcodec::enc_frame(refcodec::registry::FRAME_DATA, &refcodec::enc_capsule(refcodec::registry::CAPSULE_CLOSE_WT_SESSION, &value));
+                        let _ = req_send.write_all(&bytes).await;
+                    }
+                    Style::WtClose(..) => unreachable!(),
+                }
+            }
+        }
+    }
+    let bound = Duration::from_secs(5);
+    let n_pending = tasks.len();
+    for t in tasks {
+        if tokio::time::timeout(bound, t).await.is_err() {
+            return CaseResult::Timeout(format!("a pending call did not complete {bound:?} after the peer ended the session ({:?})", case.style));
+        }
+    }
+    for round in 0..3 {
+        macro_rules! late {
+            ($name:expr, $call:ident) => {{
+                match tokio::time::timeout(bound, conn.$call()).await {
+                    Ok(Ok(_)) => shared.lock().unwrap().results.push(($name.to_string(), "Ok".into())),
+                    Ok(Err(e)) => shared.lock().unwrap().results.push(($name.to_string(), conn_err(&e))),
+                    Err(_) => return CaseResult::Timeout(format!("{} (round {round}) hangs after the session ended", $name)),
+                }
+            }};
+        }
+        late!("later accept_uni", accept_uni);
+        late!("later accept_bi", accept_bi);
+        late!("later receive_datagram", receive_datagram);
+    }
+    let g = shared.lock().unwrap();
+    for (op, got) in &g.results {
+        match &expect {
+            Some(want) => {
+                if got != want {
+                    return viol(format!("C04:value:{}", style_name(&case.style)), format!("{op} reported {got}, the peer ended the session with {want}"));
+                }
+            }
+            None => {
+                if got == "Ok" || got.starts_with("ApplicationClosed") {
+                    return viol(format!("C04:abrupt-as-close:{}", style_name(&case.style)), format!("{op} reported {got} although the session stream was terminated abruptly / the capsule is malformed ({:?})", case.style));
+                }
+            }
+        }
+    }
+    drop(g);
+    // transport-level view
+    match &case.style {
+        Style::QuicClose(..) | Style::WtClose(..) => {
+            let e = match tokio::time::timeout(bound, conn.closed()).await {
+                Ok(e) => conn_err(&e),
+                Err(_) => return CaseResult::Timeout("closed() hangs".into()),
+            };
+            if Some(&e) != expect.as_ref() {
+                return viol("C04:closed-value", format!("closed() reported {e}, expected {:?}", expect));
+            }
+        }
+        Style::Reset(_) | Style::FinInsideData | Style::Malformed(_) => {
+            let (rc, _, _) = raw.as_ref().unwrap();
+            match tokio::time::timeout(bound, rc.closed()).await {
+                Ok(e) => match close_seen(&e) {
+                    CloseSeen::Application(code, _) if (0x100..=0x110).contains(&code) || code == 0x33 || code == 0x200 => {}
+                    other => return viol("C04:abrupt-wire-code", format!("after {:?} the peer saw {:?}, expected a CONNECTION_CLOSE with an HTTP/3 error code", case.style, other)),
+                },
+                Err(_) => return CaseResult::Timeout(format!("after {:?} the endpoint never closed the connection", case.style)),
+            }
+        }
+        _ => {}
+    }
+    drop(keep);
+    let nt = match &case.style {
+        Style::Capsule(c, r) => *c != 0 || !r.is_empty(),
+        Style::QuicClose(c, r) | Style::WtClose(c, r) => *c != 0 || !r.is_empty(),
+        _ => false,
+    } || n_pending > 0;
+    CaseResult::Pass { nontrivial: nt, labels: vec![style_label(&case.style)] }
+}
+
+fn style_name(s: &Style) -> &'static str {
+    match s {
+        Style::Capsule(..) => "capsule",
+        Style::Fin => "fin",
+        Style::QuicClose(..) => "quic-close",
+        Style::WtClose(..) => "wt-close",
+        Style::Reset(_) => "reset",
+        Style::FinInsideData => "fin-inside-data",
+        Style::Malformed(_) => "malformed-capsule",
+    }
+}
+
+fn style_label(s: &Style) -> &'static str {
+    match s {
+        Style::Capsule(_, r) if r.len() >= 1020 => "style:capsule-long-reason",
+        Style::Capsule(..) => "style:capsule",
+        Style::Fin => "style:fin",
+        Style::QuicClose(..) => "style:quic-close",
+        Style::WtClose(..) => "style:wt-close",
+        Style::Reset(_) => "style:reset",
+        Style::FinInsideData => "style:fin-inside-data",
+        Style::Malformed(_) => "style:malformed-capsule",
+    }
+}
+
+pub fn exec(case: &Case) -> CaseResult {
+    let c = Arc::new(case.clone());
+    match run_on(case.flavor, Duration::from_secs(30), exec_async(c)) {
+        Some(r) => r,
+        None => CaseResult::Timeout("case did not finish in 30 s".into()),
+    }
+}
+
+pub fn run(run: &Run) {
+    run.set_rule(RULE);
+    run.assume("QUIC close reasons stay below 1000 bytes (longer ones are truncated by the transport by design)");
+    prop_search(
+        run,
+        Search { check: "termination-value", cases: run.tier.pick(400, 5000), workers: 8, max_shrink_iters: 60 },
+        case_strategy,
+        |c| judge(|| exec(c), false, "C04:hang"),
+        |c| serde_json::to_value(c).unwrap(),
+    );
+    for l in ["style:capsule", "style:capsule-long-reason", "style:fin", "style:quic-close", "style:wt-close", "style:reset", "style:fin-inside-data", "style:malformed-capsule"] {
+        run.essential(l);
+    }
+}
+
+pub fn replay(run: &Run, doc: &Value) -> bool {
+    let Ok(case) = serde_json::from_value::<Case>(doc["case"].clone()) else {
+        return false;
+    };
+    run.eval("termination-value", true, 1);
+    for _ in 0..3 {
+        if let Outcome::Fail { signature, message } = judge(|| exec(&case), false, "C04:hang") {
+            run.fail("termination-value", &signature, &message, doc["case"].clone());
+            break;
+        }
+    }
+    true
 }
